@@ -26,11 +26,11 @@ def ErrPreserved {σ : Type} (t : Trans σ ε ρ) : Prop :=
 /-- query level (C22): `Ok rows` ⇒ everything that was handed over anywhere below was `Ok` -/
 def NeverSwallows (S : Sem χ ρ ν ε κ α) (Q : Quirks) (L : LimEnv ε) (params : ρ) (p : Plan χ ρ ε α) : Prop :=
   ∀ rows, execute S Q L params p = .ok rows →
-    ∀ h ∈ trace S Q L .root params p (driverDemand (runL S Q L .root params p)), Item.isOk h.item = true
+    ∀ h ∈ trace false S Q L .root params p (driverDemand (runL S Q L .root params p)), Item.isOk h.item = true
 
 /-- query level, contrapositive reading: an `Err` handed over anywhere ⇒ the query answers `Err` -/
 def ErrReported (S : Sem χ ρ ν ε κ α) (Q : Quirks) (L : LimEnv ε) (params : ρ) (p : Plan χ ρ ε α) : Prop :=
-  (∃ h ∈ trace S Q L .root params p (driverDemand (runL S Q L .root params p)), Item.isOk h.item = false) →
+  (∃ h ∈ trace false S Q L .root params p (driverDemand (runL S Q L .root params p)), Item.isOk h.item = false) →
     ∃ e, execute S Q L params p = .error e
 
 /-- every verdict of the limit environment is a limit error -/
